@@ -381,6 +381,24 @@ Definition xml_ignorable (x : xnode) : bool :=
 Fixpoint all_xml_ignorable (l : xnodes) : bool :=
   match l with XNil => true | XCons x r => xml_ignorable x && all_xml_ignorable r end.
 
+(* special lookups: does a lookup of kind k find an attribute / element that lives in namespace ns (equal local name)? *)
+Definition lookup_finds (k : lookup_kind) (ns : attr_ns) : bool :=
+  match k with
+  | LK_NoNamespace => attr_ns_eqb ns ANS_None
+  | LK_LocalNameOnly => true
+  | LK_SvgNamespace => attr_ns_eqb ns ANS_Svg
+  end.
+(* what `:first-child` and the `+` combinator see: the element children, in order (roxmltree prev_sibling_element /
+   parent_element skip comments, processing instructions and text) *)
+Definition x_is_element (x : xnode) : bool := match x with XNode XK_Element _ _ _ _ _ => true | _ => false end.
+Fixpoint sibling_elements (l : xnodes) : list xnode :=
+  match l with
+  | XNil => []
+  | XCons x r => if x_is_element x then x :: sibling_elements r else sibling_elements r
+  end.
+Fixpoint all_non_element (l : xnodes) : bool :=
+  match l with XNil => true | XCons x r => negb (x_is_element x) && all_non_element r end.
+
 (* ------------------------------------------------------------------ concrete instance for the correspondence *)
 (* Leaves push one node; links resolve to themselves when listed as valid; filters resolve when the
    value is a link to a listed id.  Used only by harness-generated case files. *)
